@@ -959,6 +959,58 @@ impl Pt {
         let (fh, nodeid, sfd) = (h.fh, h.nodeid, raw(&h.sfd));
         let rep = self.send(out, &mkreq("LSEEK", nodeid, 0, 0, &[("fh", fh), ("offset", off), ("whence", whence as u64)], &[], &[]));
         let host = sys::lseek(sfd, off as i64, whence as i32);
+        if whence == libc::SEEK_DATA as u32 || whence == libc::SEEK_HOLE as u32 {
+            // Where data ends and holes begin is a property of the file's block allocation (delayed
+            // allocation, unwritten extents after ZERO_RANGE, writeback timing), which differs between
+            // the exported file and its shadow copy although their contents are equal. The oracle is
+            // therefore semantic: offsets in range, ENXIO exactly at/after end of file, and every region
+            // the reply declares a hole reads as zeros.
+            let size = sys::fstat(sfd).map(|s| s.st_size as u64).unwrap_or(0);
+            // the handle may be write-only: read through a fresh descriptor of the same shadow file
+            let rfd = sys::openat(libc::AT_FDCWD, format!("/proc/self/fd/{}", sfd).as_bytes(), libc::O_RDONLY, 0);
+            let Ok(rfd) = rfd else { return };
+            let rraw = raw(&rfd);
+            let zero_between = |a: u64, b: u64| -> bool {
+                let mut pos = a;
+                while pos < b {
+                    match sys::pread(rraw, (b - pos).min(1 << 16) as usize, pos) {
+                        Ok(v) if !v.is_empty() => {
+                            if v.iter().any(|x| *x != 0) {
+                                return false;
+                            }
+                            pos += v.len() as u64;
+                        }
+                        _ => break,
+                    }
+                }
+                true
+            };
+            if off >= size {
+                if rep.error != -libc::ENXIO {
+                    out.fail("host/lseek/result", format!("lseek({}, {}) at/after end of file ({}) answered {}", off, whence, size, rep.error));
+                }
+                return;
+            }
+            let got = if rep.error == 0 && rep.body.len() >= 8 { get(&rep.body, 0, "fuse_lseek_out", "offset") } else { u64::MAX };
+            if whence == libc::SEEK_DATA as u32 {
+                let hole_end = if rep.error == -libc::ENXIO {
+                    size
+                } else if rep.error == 0 {
+                    got
+                } else {
+                    out.fail("host/lseek/result", format!("SEEK_DATA({}) answered {}", off, rep.error));
+                    return;
+                };
+                if rep.error == 0 && (got < off || got >= size) {
+                    out.fail("host/lseek/offset", format!("SEEK_DATA({}) = {} outside [{}, {})", off, got, off, size));
+                } else if !zero_between(off, hole_end) {
+                    out.fail("host/lseek/offset", format!("SEEK_DATA({}) skipped to {} over bytes that are not zero", off, hole_end));
+                }
+            } else if rep.error != 0 || got < off || got > size {
+                out.fail("host/lseek/offset", format!("SEEK_HOLE({}) answered error {} offset {} (file size {})", off, rep.error, got, size));
+            }
+            return;
+        }
         if self.cmp_errno(out, "lseek", &rep, host.map(|_| ())) {
             let got = get(&rep.body, 0, "fuse_lseek_out", "offset") as i64;
             if Ok(got) != host {
@@ -966,7 +1018,6 @@ impl Pt {
             }
         }
     }
-
     pub fn flush_fsync(&mut self, out: &mut Outcome, hi: usize, fsync: bool, datasync: bool) {
         let Some(h) = self.handles.get(hi) else { return };
         if !h.live {
